@@ -14,9 +14,11 @@ package main
 
 import (
 	"bytes"
+	"crypto/sha256"
 	"encoding/json"
 	"errors"
 	"fmt"
+	"math/big"
 	"os"
 	"os/exec"
 	"path/filepath"
@@ -27,6 +29,7 @@ import (
 
 	"github.com/markkurossi/mpc/circuit"
 	"github.com/markkurossi/mpc/ot"
+	"github.com/markkurossi/mpc/sha2pc"
 )
 
 func init() {
@@ -65,6 +68,9 @@ func c17CheckInventory(c *Ctx) {
 	if err != nil {
 		c.Fail("c17:circuit-shared-state:scan-failed", err.Error(), map[string]interface{}{"repo": repo})
 		return
+	}
+	if rel, rerr := c17ReleaseInventory(repo); rerr == nil {
+		inv = append(inv, rel...) // expected: no Release call outside tests anywhere in the module
 	}
 	exp := map[string]bool{}
 	for _, s := range c17ExpectedInventory {
@@ -108,30 +114,32 @@ func runC17(c *Ctx) error {
 	}
 	se := stderr.String()
 	races := strings.Count(se, "WARNING: DATA RACE")
-	if races > 0 {
-		// key: the first frame of the first report that lies in the mpc module
-		site := "unknown"
-		for _, ln := range strings.Split(se, "\n") {
-			ln = strings.TrimSpace(ln)
-			if strings.HasPrefix(ln, "github.com/markkurossi/mpc/") {
-				site = strings.TrimPrefix(ln, "github.com/markkurossi/mpc/")
-				site = strings.TrimSuffix(site, "()")
-				break
+	reportRaces := func() {
+		if races > 0 {
+			// key: the first frame of the first report that lies in the mpc module
+			site := "unknown"
+			for _, ln := range strings.Split(se, "\n") {
+				ln = strings.TrimSpace(ln)
+				if strings.HasPrefix(ln, "github.com/markkurossi/mpc/") {
+					site = strings.TrimPrefix(ln, "github.com/markkurossi/mpc/")
+					site = strings.TrimSuffix(site, "()")
+					break
+				}
 			}
+			rep := se
+			if len(rep) > 6000 {
+				rep = rep[:6000]
+			}
+			c.Fail("c17:race:"+site, fmt.Sprintf("the race detector reported %d data race(s) in the concurrent run", races),
+				map[string]interface{}{"seed": c.Seed, "tier": c.Tier, "report": rep})
+		} else if code != 0 {
+			tail := se
+			if len(tail) > 3000 {
+				tail = tail[len(tail)-3000:]
+			}
+			c.Fail("c17:child-crashed", fmt.Sprintf("the concurrent run exited with code %d", code),
+				map[string]interface{}{"seed": c.Seed, "stderr": tail})
 		}
-		rep := se
-		if len(rep) > 6000 {
-			rep = rep[:6000]
-		}
-		c.Fail("c17:race:"+site, fmt.Sprintf("the race detector reported %d data race(s) in the concurrent run", races),
-			map[string]interface{}{"seed": c.Seed, "tier": c.Tier, "report": rep})
-	} else if code != 0 {
-		tail := se
-		if len(tail) > 3000 {
-			tail = tail[len(tail)-3000:]
-		}
-		c.Fail("c17:child-crashed", fmt.Sprintf("the concurrent run exited with code %d", code),
-			map[string]interface{}{"seed": c.Seed, "stderr": tail})
 	}
 	// merge the child's cases, oracle verdicts and statistics
 	if b, err := os.ReadFile(filepath.Join(childOut, "cases.txt")); err == nil {
@@ -151,6 +159,7 @@ func runC17(c *Ctx) error {
 			}
 		}
 	}
+	reportRaces() // after the child's own verdicts, so that a concrete failing scenario comes first
 	var st struct {
 		Evaluations int            `json:"evaluations"`
 		Distinct    int            `json:"distinct_nontrivial"`
@@ -328,6 +337,12 @@ func runC17Child(c *Ctx) error {
 		return err
 	}
 	if err := c17Unreleased(c); err != nil {
+		return err
+	}
+	if err := c17Sha2pc(c); err != nil {
+		return err
+	}
+	if err := c17ProtoSessions(c); err != nil {
 		return err
 	}
 	for sr := 0; sr < c.N(8, 120); sr++ {
@@ -1077,3 +1092,186 @@ func decOnly(circ *circuit.Circuit, key []byte, g *circuit.Garbled, x []bool) []
 	_, d, _ := evalOn(circ, key, g.Wires, g.Gates, x)
 	return d
 }
+
+// ---- other users of a shared *Circuit in the module
+
+type c17ShaSession struct {
+	a, b   [32]byte
+	gState *sha2pc.GarblerSession
+	eState *sha2pc.EvaluatorSession
+	msg2   sha2pc.Round2Payload
+	msg3   sha2pc.Round3Payload
+}
+
+func c17ShaNew(r *RNG) (*c17ShaSession, error) {
+	s := new(c17ShaSession)
+	copy(s.a[:], r.Bytes(32))
+	copy(s.b[:], r.Bytes(32))
+	msg1, gState, err := sha2pc.GarblerRound1(r.Fork(), sha2pc.CurveP256)
+	if err != nil {
+		return nil, fmt.Errorf("Round1: %v", err)
+	}
+	msg2, eState, err := sha2pc.EvaluatorRound2(r.Fork(), sha2pc.CurveP256, msg1, s.b)
+	if err != nil {
+		return nil, fmt.Errorf("Round2: %v", err)
+	}
+	s.gState, s.eState, s.msg2 = gState, eState, msg2
+	return s, nil
+}
+
+func (s *c17ShaSession) check() string {
+	got, err := sha2pc.EvaluatorRound4(sha2pc.CurveP256, s.eState, s.msg3)
+	if err != nil {
+		return "Round4: " + err.Error()
+	}
+	var x [32]byte
+	for i := range x {
+		x[i] = s.a[i] ^ s.b[i]
+	}
+	if want := sha256.Sum256(x[:]); got != want {
+		return fmt.Sprintf("digest %x, expected SHA-256(a xor b) = %x", got, want)
+	}
+	return ""
+}
+
+// c17Sha2pc: the sha2pc round API garbles its package-level SHA256(XOR) circuit through
+// Circuit.Garble; sessions that overlap in one process must each get a garbling that stays
+// valid until the session has consumed it.
+func c17Sha2pc(c *Ctx) error {
+	r := c.rng.Fork()
+	failS := func(mode string, i int, what string) {
+		c.Fail("c17:sha2pc:"+mode+"-sessions:wrong-or-error",
+			fmt.Sprintf("sha2pc round API, %s sessions on the package-level circuit: session %d: %s", mode, i, what),
+			map[string]interface{}{"seed": c.Seed, "mode": mode, "session": i})
+	}
+	// interleaved, one goroutine: Round 3 of every session first, then Round 4 of every session
+	nI := c.N(3, 6)
+	var ss []*c17ShaSession
+	for i := 0; i < nI; i++ {
+		s, err := c17ShaNew(r)
+		if err != nil {
+			return err
+		}
+		ss = append(ss, s)
+	}
+	for i, s := range ss {
+		var err error
+		s.msg3, err = sha2pc.GarblerRound3(r.Fork(), sha2pc.CurveP256, s.gState, s.a, s.msg2)
+		if err != nil {
+			failS("interleaved", i, "Round3: "+err.Error())
+		}
+	}
+	for i, s := range ss {
+		c.Eval(fmt.Sprintf("sha2pc/interleaved/%d", i), true)
+		if bad := s.check(); bad != "" {
+			failS("interleaved", i, bad)
+		}
+	}
+	c.Hist(fmt.Sprintf("sha2pc-interleaved-sessions:%d", nI))
+	// pipelined: one garbler goroutine feeds evaluator goroutines
+	nP := c.N(4, 10)
+	ch := make(chan *c17ShaSession)
+	type pres struct {
+		i   int
+		bad string
+	}
+	var mu sync.Mutex
+	var bads []pres
+	idx := map[*c17ShaSession]int{}
+	var wg sync.WaitGroup
+	for e := 0; e < 2; e++ {
+		wg.Add(1)
+		go func() {
+			defer wg.Done()
+			for s := range ch {
+				bad := s.check()
+				mu.Lock()
+				bads = append(bads, pres{idx[s], bad})
+				mu.Unlock()
+			}
+		}()
+	}
+	for i := 0; i < nP; i++ {
+		s, err := c17ShaNew(r)
+		if err != nil {
+			close(ch)
+			wg.Wait()
+			return err
+		}
+		s.msg3, err = sha2pc.GarblerRound3(r.Fork(), sha2pc.CurveP256, s.gState, s.a, s.msg2)
+		if err != nil {
+			failS("pipelined", i, "Round3: "+err.Error())
+			continue
+		}
+		mu.Lock()
+		idx[s] = i
+		mu.Unlock()
+		ch <- s
+	}
+	close(ch)
+	wg.Wait()
+	for _, b := range bads {
+		c.Eval(fmt.Sprintf("sha2pc/pipelined/%d", b.i), true)
+		if b.bad != "" {
+			failS("pipelined", b.i, b.bad)
+		}
+	}
+	c.Hist(fmt.Sprintf("sha2pc-pipelined-sessions:%d", nP))
+	return nil
+}
+
+// c17ProtoSessions: several circuit.Garbler / circuit.Evaluator sessions (over in-memory
+// transports) share ONE *circuit.Circuit and run at the same time with different inputs.
+func c17ProtoSessions(c *Ctx) error {
+	r := c.rng.Fork()
+	for round := 0; round < c.N(2, 12); round++ {
+		circ := GenCircuit(r, GenOpts{MinIn: 2, MaxIn: 10, MinGates: 5, MaxGates: 60, MaxOut: 6, Overwrite: true, TwoParty: true})
+		n0, n1 := int(circ.Inputs[0].Type.Bits), int(circ.Inputs[1].Type.Bits)
+		S := r.Range(3, 6)
+		type ps struct {
+			x, y []bool
+			res  *sessionResult
+			rng  *RNG
+		}
+		sess := make([]*ps, S)
+		for i := range sess {
+			sess[i] = &ps{x: randBits(r, n0), y: randBits(r, n1), rng: r.Fork()}
+		}
+		var wg sync.WaitGroup
+		for _, s := range sess {
+			wg.Add(1)
+			go func(s *ps) {
+				defer wg.Done()
+				kind := otKinds[0]
+				s.res = runSession(circ, bitsToBig(s.x), bitsToBig(s.y), s.rng.Fork(), kind.mk(s.rng.Fork()), kind.mk(s.rng.Fork()),
+					0, s.rng.Fork(), nil, 60*time.Second)
+			}(s)
+		}
+		wg.Wait()
+		for i, s := range sess {
+			c.Eval(fmt.Sprintf("proto-sessions/%d/%d", round, i), true)
+			xy := append(append([]bool(nil), s.x...), s.y...)
+			want := JoinBig(circ, TruthEval(circ, xy))
+			bad := ""
+			switch {
+			case s.res.stalled:
+				bad = "session stalled"
+			case s.res.gErr != nil:
+				bad = "garbler error: " + s.res.gErr.Error()
+			case s.res.eErr != nil:
+				bad = "evaluator error: " + s.res.eErr.Error()
+			case bigsString(s.res.gRes) != bigsString(want) || bigsString(s.res.eRes) != bigsString(want):
+				bad = "result differs from plain evaluation"
+			}
+			if bad != "" {
+				c.Fail("c17:garbler-evaluator:concurrent-sessions:wrong-or-error",
+					fmt.Sprintf("%d circuit.Garbler/Evaluator sessions sharing one *circuit.Circuit: session %d: %s", S, i, bad),
+					map[string]interface{}{"seed": c.Seed, "round": round, "circuit": circuitText(circ), "x": bitsString(s.x), "y": bitsString(s.y)})
+			}
+		}
+		c.Hist(fmt.Sprintf("proto-sessions:%d", S))
+	}
+	return nil
+}
+
+var _ = big.NewInt
